@@ -30,6 +30,14 @@ NA = {
 
 # property -> (level, text, note, technique, design_ref, engine)
 CHECKS = {
+ "C04": ("fault_enumeration",
+         "For each seeded journal history the index file is replaced by every variant of a catalogue (missing, empty, valid, every truncation point, every byte flipped, random bytes, stale index of each earlier clean close, index of another journal, checksum-valid-but-wrong ranges, EIO on read); the store is opened read-write and read-only and must show the same root and the same readable chunks (byte for byte) as with no index; the read-only open must issue no mutating file operation (observed at the simulated OS).",
+         "Forged indexes (checksums recomputed over altered contents) are probes only. Two known findings (lookup offset/length not covered by the batch CRC) are listed in known_findings.txt.",
+         "deterministic simulation: at-rest fault enumeration of the index file against the no-index reference, OS-level write observation", "DESIGN.md §6.1 C04", "dsim-store"),
+ "C10": ("fault_enumeration",
+         "Small valid store directories (journal, table files, GC output, archives, manifests) built by the real writers; every byte of one storage file flipped and every truncation point applied (exhaustive for small files), plus multi-byte and 4KiB-block damage; every read path of the real store is driven over stored and mask-adjacent addresses; a panic (also in helper goroutines, detected through a crash sentinel + process restart), a multi-GB allocation, or a chunk whose bytes do not hash to its address is a violation.",
+         "A stored chunk reported absent is a probe. Misreads that the undamaged store produces too (16-byte journal prefix) are excluded here and decided under C01. 15 known findings (call sites) are listed in known_findings.txt; RLIMIT_AS 4 GB turns runaway allocations into detectable crashes.",
+         "deterministic simulation: exhaustive single-byte at-rest corruption of real store files, all read paths, crash sentinel", "DESIGN.md §6.1 C10", "dsim-store"),
  "C03": ("fault_enumeration",
          "For each seeded write history executed on the real journaling store over the simulated OS, every op-log position x crash variant (unsynced tail lost / kept / cut at every record boundary and at sampled mid-record bytes, zero-filled, garbage, 4KiB hole; directory operations cut at their durable point) is materialised and re-opened by the real recovery code; the recovered root must be the last acknowledged or an in-flight one, its closure readable byte-for-byte, and the store must accept and persist a further commit. Plus at-rest single-bit damage of records proven acknowledged (must be reported as data loss, never silently truncated) and of the final record (must roll back silently). Enumeration is complete per history up to the stated sampling; histories are sampled.",
          "Trusts the persistence model stated in the evidence file (what a crash may do to unsynced data and directory operations) and that op-log positions are the only crash points; the file system's own behaviour is simulated, fsync is recorded not issued; built with go1.26.8 (repo tests use 1.26.2).",
